@@ -16,6 +16,7 @@ type SpecCtx struct {
 	old    map[string]string // heap for old(); nil = current
 	pkg    *types.Package
 	what   string // for error messages
+	trig   bool   // evaluating a trigger term: no boolean structure allowed
 }
 
 type specError struct{ msg string }
@@ -507,8 +508,10 @@ func (c *SpecCtx) quant(q *SQuant) Val {
 	n := c.child()
 	var binders []string
 	var guard []string
+	var boundNames []string
 	for _, v := range q.Vars {
 		name := e.freshName("q_" + v[0])
+		boundNames = append(boundNames, name)
 		if v[1] == "" {
 			binders = append(binders, "("+name+" Int)")
 			n.vars[v[0]] = ival(name)
@@ -531,10 +534,26 @@ func (c *SpecCtx) quant(q *SQuant) Val {
 	c.s.noNames = true
 	body := n.evalBool(q.Body)
 	var trigTerms []string
+	n.trig = true
 	for _, t := range q.Trig {
 		trigTerms = append(trigTerms, n.eval(t).T)
 	}
+	n.trig = false
+	// keep side effects that do not mention a bound variable (e.g. promotion of a local to the heap)
+	added := append([]string(nil), c.s.cmds[ncmds:]...)
 	c.s.cmds = c.s.cmds[:ncmds]
+	for _, cmd := range added {
+		leak := false
+		for _, bn := range boundNames {
+			if strings.Contains(cmd, bn) {
+				leak = true
+				break
+			}
+		}
+		if !leak {
+			c.s.cmds = append(c.s.cmds, cmd)
+		}
+	}
 	c.s.noNames, c.s.assumed = savedNoNames, savedAssumed
 	var trig string
 	if len(trigTerms) > 0 {
@@ -595,6 +614,9 @@ func (c *SpecCtx) call(x *SCall) Val {
 		return ival("(s_off " + arg(0).T + ")")
 	case "has":
 		m, k := arg(0), arg(1)
+		if c.trig {
+			return bval(s.mapHas(m.Ty, m.T, s.term(k)))
+		}
 		return bval(and("(not (= "+m.T+" 0))", s.mapHas(m.Ty, m.T, s.term(k))))
 	case "typeis", "is":
 		v := arg(0)
@@ -788,9 +810,17 @@ func (c *SpecCtx) call(x *SCall) Val {
 			c.fail("gk: unknown ghost")
 		}
 		g := e.ghosts[id.Name]
-		return Val{T: s.ghostRead(g, c.evalInt(x.Args[1])), Ty: g.Ty}
+		kv := arg(1)
+		if e.sortOf(kv.Ty) != "Int" {
+			c.fail("gk: key must be of an integer-like sort")
+		}
+		return Val{T: s.ghostRead(g, s.term(kv)), Ty: g.Ty}
 	case "lockcount":
 		return ival(s.lockCountTerm())
+	case "errtext":
+		return e.errText(s, arg(0))
+	case "spawned":
+		return ival(s.heapTerm("gh:$spawned", "Int"))
 	case "visited":
 		k := arg(0)
 		kt := s.term(k)
